@@ -117,7 +117,7 @@ Definition run_set (v : val) : val :=
   | None => VL [VN 1%N]
   end.
 
-(* 1204: (opts tree); tree = (apiece ...), apiece = (0 (aitem ...)) | (1), aitem = (0 gitem) | (1 (branch ...)),
+(* 1204: (opts tree); tree = (apiece ...), apiece = (0 (aitem ...)) | (1), aitem = (0 gitem) | (1 (branch ...)) | (2) a ',' outside braces,
    branch = (gpiece ...), gpiece = (0 (gitem ...)) | (1),
    gitem = (0 c) plain | (1 c) escaped | (2) `?` | (3) `*` | (4 ((lo hi) ...)) class *)
 Definition dec_gitem (v : val) : gitem :=
@@ -136,6 +136,7 @@ Definition dec_gpiece (v : val) : gpiece :=
 Definition dec_aitem (v : val) : aitem :=
   match as_N (fld 0 v) with
   | 0%N => AIt (dec_gitem (fld 1 v))
+  | 2%N => AComma
   | _ => AAlt (map (fun b => map dec_gpiece (as_list b)) (as_list (fld 1 v)))
   end.
 Definition dec_apiece (v : val) : apiece :=
